@@ -1160,7 +1160,9 @@ func init() {
 							return Viol("concat-content", kind, "GroupByTag: %s holds %q; the inputs tagged %s in arrival order give %q", gp, clip([]byte(gid.data)), g, clip([]byte(groups[g])))
 						}
 					}
-					for pth, e := range WorkFiles(root) {
+					wf1 := WorkFiles(root)
+					for _, pth := range sortedKeys(wf1) {
+						e := wf1[pth]
 						if strings.HasPrefix(pth, "/work/concat/all.txt.grp_") && !strings.HasSuffix(pth, ".audit.json") && !strings.Contains(pth, ".use.") && e.Kind == simrt.KFile {
 							if _, ok := groups[strings.TrimPrefix(pth, "/work/concat/all.txt.grp_")]; !ok {
 								return Viol("concat-content", kind, "GroupByTag: unexpected group output %s", pth)
@@ -1217,7 +1219,9 @@ func init() {
 						// the directory as the second round finds it (results of the first
 						// round included, the deleted files gone)
 						var present []string
-						for p, e := range WorkFiles(inc.RT.PreRound[0]) {
+						wf2 := WorkFiles(inc.RT.PreRound[0])
+						for _, p := range sortedKeys(wf2) {
+							e := wf2[p]
 							if e.Kind == simrt.KFile {
 								present = append(present, strings.TrimPrefix(p, "/work/"))
 							}
